@@ -55,6 +55,10 @@ def kani_part(prop, tier, only, scratch_tag):
             base = {"engine": "kani", "unit": h.unit.name, "harness": h.name, "fn": h.fn,
                     "kind": h.kind, "bound": h.bound, "clause_text": h.clause, "stubs": h.stubs,
                     "backend": "cbmc 6.11/" + str((r or {}).get("solver") or "cadical")}
+            if (r is None or not r["checks"]) and getattr(h, "timebox", False):
+                info.setdefault("timeboxed_out", []).append({"harness": h.name, "fn": h.fn, "clause": h.clause, "time_box_s": h.timeout,
+                                                             "note": "no answer within the time box: nothing explored, nothing claimed"})
+                continue
             if r is None:
                 undecided.append("%s: no result (timeout or crash)" % h.name)
                 obligations.append(dict(base, name=h.name, status="undecided", detail="no result"))
@@ -352,6 +356,7 @@ def check(prop, tier, seed, only=None):
         "vacuity": infos.get("verus", {}).get("vacuity"),
         "explanation": P.get("explanation", ""),
         "exhaustive": False,
+        "timeboxed_out": infos.get("kani", {}).get("timeboxed_out", []),
     }
     pc = [o for o in bounded_obs if o.get("cases") is not None]
     if pc:
